@@ -15,6 +15,7 @@ TECHNIQUE = (
     "pages through get_citations(); deviation-bounded product of context slots; all ordered pairs and triples inside a "
     "generated pool per edition for the equivalence-relation, hash-consistency and cross-kind laws"
 )
+TECHNIQUE += "; " + 'also: the negative clause for ambiguous spellings, context-independence of short forms and of dated ambiguous spellings; a subset again under python -O'
 RULE = (
     "variations: every edition of REPORTERS with the plain $full_cite shape x every variation that maps unambiguously to it x "
     "volumes {5,12} x pages {10,345}; contexts: 9 context slots (pin cite, year, court, parties, parenthetical, prose before/"
